@@ -411,11 +411,13 @@ impl Builder {
     pub fn query_goal(&mut self, qterms: &Vec<T>, body: Vec<G>, final_probe: bool) -> G {
         let q: T = LTerm::var("__query__");
         self.names.register(&q, 0);
-        let mut parts: Vec<G> = vec![
-            relation::eq::eq::<VU, E, G>(q.clone(), LTerm::from_array(qterms)).cast_into(),
-            Conj::from_array(&body),
-            proto_vulcan::state::reify(q.clone()),
-        ];
+        let mut parts: Vec<G> = vec![proto_vulcan::state::reified(
+            Conj::from_array(&[
+                relation::eq::eq::<VU, E, G>(q.clone(), LTerm::from_array(qterms)).cast_into(),
+                Conj::from_array(&body),
+            ]),
+            q.clone(),
+        )];
         if final_probe {
             let names = self.names.clone();
             parts.push(
